@@ -144,7 +144,21 @@ def configs(tier, seed):
                {'shape': 'ellipse', 'rx': 10.5, 'ry': 1000.0, 'theta': 2.5, 'phase': list(GENERIC[2]), 'ptype': 'generic'}]
         for b in big:
             out.append({'part': 'exact', 'mode': 'biggrid', **b})
+    # the exact mask as it arrives on an image (to_image): non-square images, the shape beyond the shorter dimension
+    for centre, image in (((42.3, 12.6), (30, 60)), ((12.6, 45.3), (60, 30)), ((10.4, 9.7), (25, 25)), ((58.9, 3.2), (8, 64)),
+                          ((-1.3, 20.6), (40, 12)), ((3.3, 36.1), (40, 12))):
+        out.append({'part': 'on_image', 'shape': 'circle', 'r': 2.5, 'phase': list(centre), 'image': list(image), 'ptype': 'image'})
+        out.append({'part': 'on_image', 'shape': 'ellipse', 'rx': 3.65, 'ry': 1.5, 'theta': 1.0, 'phase': list(centre), 'image': list(image),
+                    'ptype': 'image'})
     out.extend(conv_configs(tier, seed))
+    # the shape sits anywhere on the grid: generic centre phases are moved by whole pixels into all four quadrants (by a hash
+    # of the configuration); the 'nice' phases stay where they are, so that the recorded kernel inputs remain bit-identical
+    import zlib
+    for c in out:
+        if c.get('ptype', 'generic') == 'generic' and c.get('mode', 'grid') in ('grid', 'window'):
+            h = zlib.crc32(repr(sorted((k, repr(v)) for k, v in c.items())).encode()) % 4
+            ox, oy = [(0, 0), (-7, 3), (5, -11), (-4, -6)][h]
+            c['phase'] = [c['phase'][0] + ox, c['phase'][1] + oy]
     for i, c in enumerate(out):
         c['idx'] = i
     return out
@@ -184,7 +198,7 @@ def _params(cfg):
 
 
 def _case(cfg, via):
-    keys = ('shape', 'r', 'rx', 'ry', 'theta', 'phase')
+    keys = ('shape', 'r', 'rx', 'ry', 'theta', 'phase', 'image')
     c = {k: cfg[k] for k in keys if k in cfg}
     c['via'] = via
     return c
@@ -428,6 +442,33 @@ def _use_mask(m):
         m.to_image((ny, nx))
     except Exception:          # noqa: BLE001
         pass
+
+
+def check_on_image(res, trk, cfg):
+    """The exact mask placed on an image of the given (ny, nx) shape: every image pixel holds the true overlap area."""
+    ny, nx = cfg['image']
+    res.states += 1
+    res.axis('shape', cfg['shape'])
+    res.axis('via', 'to_image')
+    res.axis('image_shape', f'{ny}x{nx}')
+    case = _case(cfg, 'to_image')
+    try:
+        m = _build(cfg).to_mask(mode='exact')
+        img = m.to_image((ny, nx))
+    except Exception as exc:          # noqa: BLE001
+        res.violation(ID, 'unexpected_exception', case, f"to_mask('exact').to_image({(ny, nx)}) raised {type(exc).__name__}: {exc}")
+        return
+    po = _oracle(cfg, 0, 0, nx, ny, full=True)
+    if img is None:
+        if float(np.max(po.ref)) > TOL:
+            res.violation(ID, 'exact_value_wrong', case, f'{_desc(cfg)}: to_image({(ny, nx)}) returned None although the shape covers image pixels '
+                                                         f'(largest true overlap {float(np.max(po.ref))!r})', 'an image', None)
+        return
+    img = np.asarray(img, float)
+    if img.shape != (ny, nx):
+        res.violation(ID, 'mask_shape', case, f'to_image({(ny, nx)}) has shape {img.shape}')
+        return
+    _judge(res, trk, cfg, 'to_image', img, po, 0, 0, do_sum=False)
 
 
 def _exact_kwargs(cfg):
@@ -747,6 +788,8 @@ def run_shard(shard, tier, seed):
     for cfg in shard['cases']:
         if cfg['part'] == 'exact':
             check_exact(res, trk, cfg)
+        elif cfg['part'] == 'on_image':
+            check_on_image(res, trk, cfg)
         else:
             check_conv(res, trk, cfg)
         if len(res.samples) < 2 and cfg['part'] == 'exact' or (cfg['part'] == 'convergence' and len(res.samples) < 3):
@@ -785,6 +828,11 @@ def replay(case):
         check_conv(res, trk, cfg)
         return res
     via = cfg.pop('via', None)
+    if via == 'to_image':
+        cfg['part'] = 'on_image'
+        cfg['ptype'] = 'image'
+        check_on_image(res, trk, cfg)
+        return res
     cfg['part'] = 'exact'
     rx, ry, _ = _params(cfg)
     cfg['ptype'] = 'nice' if tuple(cfg['phase']) in NICE else 'generic'
